@@ -196,7 +196,7 @@ prop("C05", "exploration",
      ["no block is mined and no coin-selecting step runs between creation and cancel (their choices legitimately depend on the reservation)",
       "the output's link to a log entry (tx_log_entry) is not part of the compared state; status, value, heights and balances are",
       "a self-send is cancelled by log id (two entries share the slate id)"],
-     required_hist=["exact-rollback:SentFinalized", "exact-rollback:Received", "exact-rollback:InvoicePayerLocked", "exact-rollback:LateLockedFinalized", "exact-rollback:SelfSend", "refused:confirmed", "refused:coinbase", "refused:already-cancelled", "refused:mined-but-not-yet-seen", "cross-account:log-id-shared-with-a-pending-entry-of-the-other-account", "case-with-scan-restored-coins"])
+     required_hist=["exact-rollback:SentFinalized", "exact-rollback:Received", "exact-rollback:InvoicePayerLocked", "exact-rollback:LateLockedFinalized", "exact-rollback:SelfSend", "self-send:cancel-by-slate-id", "received-again-after-an-earlier-cancelled-attempt:cancel-by-slate-id", "refused:no-transaction-named", "refused:confirmed", "refused:coinbase", "refused:already-cancelled", "refused:mined-but-not-yet-seen", "cross-account:log-id-shared-with-a-pending-entry-of-the-other-account", "case-with-scan-restored-coins"])
 
 prop("C02", "exploration",
      "scenarios over send / late-locked send / self-send / invoice with random amount, 1-3 change outputs, ttl, amount-includes-fee, optional payment proof, on "
